@@ -61,6 +61,9 @@ def main():
         cfg = P.gen_cfg(rng)
         ops = [P.gen_op(rng) for _ in range(rng.choice([1, 1, 1, 2, 3]))]
         scenarios.append({"cfg": cfg, "ops": ops})
+    rp = P.replay_tokens()
+    if rp is not None:
+        scenarios = [P.scenario_of_line(rp)] if rp and rp[0] == "srv" else []
     outs, stats = P.run_scenarios(c, scenarios, P.monitor_c15, compare_c15_class=True)
     c.cov["rule"] = ("Server::handle on (1) the complete grid of decision inputs for clean requests: list actions x client position w.r.t. "
                      "deny/allow lists x require-nts x accepted-version sets {34,5,345,none} x request kind {v3,v4,v5,NTS v4,NTS v5,"
